@@ -48,6 +48,8 @@ impl JoinState {
         let mut state = JoinState::Joined;
         mem::swap(self, &mut state);
         if let JoinState::Running(handle) = state {
+            #[cfg(may_verif)]
+            crate::verif::pt("scope.join", 0, 0, 0);
             let res = handle.join();
 
             // TODO: when panic happened, the logic need to refine
@@ -77,7 +79,11 @@ where
         dtors: RefCell::new(None),
     };
     let ret = f(&scope);
+    #[cfg(may_verif)]
+    crate::verif::pt("scope.drop_all", 0, 0, 0);
     scope.drop_all();
+    #[cfg(may_verif)]
+    crate::verif::pt("scope.exit", 0, 0, 0);
     ret
 }
 
